@@ -8,6 +8,7 @@ package vm
 // started by `go` - and what it returns is an error or a well-formed value.
 
 import (
+	"strings"
 	"context"
 	"fmt"
 	"reflect"
@@ -503,6 +504,8 @@ func zzDump(x interface{}) string {
 	return string(sb)
 }
 
+var zzBoundaryKind, zzBoundaryLen int
+
 // ZZ_C01_interference: the one thing the per-kind step cannot see, because it
 // stubs children by outcomes that do not touch the parent's operands: a child
 // that changes the very container its parent is working on (entries deleted
@@ -530,7 +533,36 @@ func ZZ_C01_interference() {
 		`m["z"] = 9`, `m = nil`, `m = {}`, `m[k] = nil`, `m = 1`, `for q in m { delete(m, q) }`,
 	}
 	var src, id string
-	switch f := zz.Choose(10); f {
+	switch f := zz.Choose(11); f {
+	case 10:
+		// container lengths around every integer constant written in the
+		// interpreter's own source (cache bounds, chunk sizes): len, the last
+		// element, slicing at the end, a full for-in, membership
+		var lens []int
+		for _, c := range zzCodeConsts {
+			for _, n := range []int{c - 1, c, c + 1, c + 2} {
+				if n >= 1 && n <= 9000 {
+					lens = append(lens, n)
+				}
+			}
+		}
+		if len(lens) == 0 {
+			return
+		}
+		ln := lens[zz.Choose(len(lens))]
+		kinds := []string{"[]interface{}", "[]int64", "string", "map", "chan"}
+		ki := zz.Choose(len(kinds))
+		if n != 1 || vi != 0 {
+			return // (this family does not use the map literal chosen above: one instance is enough)
+		}
+		uses := []string{"len(c)", "c[len(c) - 1]", "c[len(c) - 1:]", "c[len(c)]", "len(c) + 1", "[len(c)][0]", "x = len(c); x++; x"}
+		ui := zz.Choose(len(uses))
+		if ki >= 3 && (ui == 1 || ui == 2 || ui == 3) {
+			return
+		}
+		src = uses[ui]
+		id = fmt.Sprintf("length-boundaries/%s/%s/n=%d", kinds[ki], uses[ui], ln)
+		zzBoundaryKind, zzBoundaryLen = ki, ln
 	case 9:
 		// zero values of the types a script can name with make(type T, v): for a
 		// module v that is a nil *env.Env, for a caught error a nil *vm.Error,
@@ -625,6 +657,30 @@ func ZZ_C01_interference() {
 	e := env.NewEnv()
 	e.Define("range", func(n int64) []int64 { return make([]int64, n) })
 	e.Define("reterr", func() error { return nil }) // a Go function over script values whose result is a nil error
+	if zzBoundaryLen > 0 {
+		n := zzBoundaryLen
+		switch zzBoundaryKind {
+		case 0:
+			e.Define("c", make([]interface{}, n))
+		case 1:
+			e.Define("c", make([]int64, n))
+		case 2:
+			e.Define("c", strings.Repeat("a", n))
+		case 3:
+			m := make(map[interface{}]interface{}, n)
+			for i := 0; i < n; i++ {
+				m[int64(i)] = nil
+			}
+			e.Define("c", m)
+		case 4:
+			ch := make(chan int64, n)
+			for i := 0; i < n; i++ {
+				ch <- 1
+			}
+			e.Define("c", ch)
+		}
+		zzBoundaryLen = 0
+	}
 	var zzro <-chan int64
 	var zzso chan<- int64
 	e.DefineType("RecvOnly", zzro)
